@@ -101,6 +101,9 @@ const (
 	FaultNilPtrError    = "nil_pointer_error"         // the error returned is a non-nil interface holding a nil pointer of the storage's own error type
 	FaultRecordAndError = "record_and_error"          // lookups: a usable (possibly stale) record comes back together with an error
 	FaultTypedNil       = "typed_nil_and_error"       // AuthRequestByID: a nil pointer inside the interface together with an error
+	FaultErrTextWide    = "error_with_multibyte_text"    // the error text is 150 letters / 300 bytes of a non-Latin script (a localised database message)
+	FaultErrTextVerbs   = "error_with_format_verbs"      // the error text quotes percent-encoded input: %2F %s %d %!
+	FaultErrTextMarkup  = "error_with_markup_in_text"    // the error text quotes markup and control characters
 	FaultPanicString    = "panics_with_a_string"      // the storage itself crashes: panic("...") / log.Panicf
 	FaultPanicError     = "panics_with_an_error"      // the storage itself crashes: panic(err)
 )
@@ -367,6 +370,12 @@ func (e *ptrError) Error() string { return e.msg }
 
 func errFor(kind string) error {
 	switch kind {
+	case FaultErrTextWide:
+		return errors.New("injected storage fault: " + strings.Repeat("\u30c7\u30fc\u30bf\u30d9\u30fc\u30b9\u63a5\u7d9a\u30a8\u30e9\u30fc ", 10) + strings.Repeat("\u00fc", 40))
+	case FaultErrTextVerbs:
+		return errors.New("injected storage fault: no row for id %2Fetc%2Fpasswd%00 (%s, %d, %v, 100%) %!s(MISSING) %[1]q")
+	case FaultErrTextMarkup:
+		return errors.New("injected storage fault: near \"</StatusMessage><Status>&amp;]]>\" at line 1\r\n\tcolumn 7 \x01\x7f")
 	case FaultNilPtrError:
 		var e *ptrError
 		return e
@@ -481,7 +490,7 @@ func (w *World) GetCA(ctx context.Context) (*key.CertificateAndKey, error) {
 
 func (w *World) keyFault(f string, base *key.CertificateAndKey) (*key.CertificateAndKey, error) {
 	switch f {
-	case FaultError, FaultTimeout, FaultTemporary, FaultPoolClosed, FaultCtx, FaultPanicString, FaultPanicError, FaultNilPtrError:
+	case FaultError, FaultTimeout, FaultTemporary, FaultPoolClosed, FaultCtx, FaultPanicString, FaultPanicError, FaultNilPtrError, FaultErrTextWide, FaultErrTextVerbs, FaultErrTextMarkup:
 		return nil, errFor(f)
 	case FaultNilRecord:
 		return nil, nil
